@@ -292,7 +292,18 @@ func (g *schemaGenerator) generateDeclaredType(t *schemas.Type, scope nameScope)
 	if isNamedType(theType) {
 		// Don't declare named types under a new name.
 		delete(g.output.declsBySchema, t)
-		delete(g.output.declsByName, decl.Name)
+
+		// The named type may have been declared under this very name while the placeholder
+		// was in progress (allOf/anyOf); only the placeholder itself is withdrawn.
+		if g.output.declsByName[decl.Name] == &decl {
+			delete(g.output.declsByName, decl.Name)
+		}
+
+		// Later references to this schema must find the type that represents it
+		// instead of generating it (and its unmarshalers) once more.
+		if nt, ok := theType.(*codegen.NamedType); ok && nt.Decl != nil {
+			g.output.declsBySchema[t] = nt.Decl
+		}
 
 		return theType, nil
 	}
